@@ -900,6 +900,17 @@ func (x *explorer) step(s *PState) []succ {
 	case NBranch:
 		rt := x.resolve(n.Cond, st, 0)
 		a := normAtom(rt, nilOracle(n.Cond, st))
+		if a.Const == 0 && strings.HasPrefix(a.Key, "Empty(") {
+			k := a.Key[6 : len(a.Key)-1]
+			if s.Facts["NE:"+k] {
+				// known non-empty on this path
+				if a.Pol {
+					a.Const = -1
+				} else {
+					a.Const = 1
+				}
+			}
+		}
 		if a.Const == 0 && a.EqConst != "" {
 			// equality with a constant already decided on this path?
 			for f := range s.Facts {
